@@ -35,6 +35,7 @@ type Program struct {
 	repo      string
 	loadSecs  float64
 	allTP     []*types.Package
+	externIfaces []string
 }
 
 func LoadProgram(repo string, patterns []string) (*Program, error) {
@@ -112,13 +113,21 @@ func (P *Program) LoadContracts() error {
 			P.files = append(P.files, cf)
 			for _, c := range cf.Funcs {
 				key := path + "." + normTarget(c.Target)
+				if c.Extern {
+					key = strings.ReplaceAll(c.Target, " ", "")
+				}
 				if _, dup := P.contracts[key]; dup {
 					return fmt.Errorf("%s:%d: duplicate contract for %s", c.File, c.Line, c.Target)
 				}
 				P.contracts[key] = c
 			}
 			for _, ic := range cf.Ifaces {
-				P.ifaces[path+"."+ic.Name] = ic
+				if strings.Contains(ic.Name, "/") {
+					P.ifaces[ic.Name] = ic // interface of a dependency, full name
+					P.externIfaces = append(P.externIfaces, ic.Name)
+				} else {
+					P.ifaces[path+"."+ic.Name] = ic
+				}
 			}
 			for _, g := range cf.Ghosts {
 				if _, dup := P.ghosts[g.Name]; dup {
